@@ -58,6 +58,8 @@ structure S where
   warn : Bool := false
   pty : Bool := false
   echo : Bool := false
+  hideOut : Bool := false        -- `hide` covers stdout (and no explicit out_stream was given)
+  hideErr : Bool := false
   readSize : Nat := 1000
   -- threads
   mainPc : MainPc := .poll
@@ -69,6 +71,8 @@ structure S where
   fin : Bool := false            -- program_finished
   capOut : List Chunk := []
   capErr : List Chunk := []
+  mirOut : List Chunk := []      -- what was forwarded to our own stdout stream
+  mirErr : List Chunk := []
   echoed : List Chunk := []
   outcome : Outcome := .pending
   deriving Repr, DecidableEq
@@ -206,14 +210,18 @@ def timerStep (s : S) : S :=
   | .finish => { s with tmPc := .done }
   | _ => s
 
+/-- `_handle_output`: what was just read is written to our own stream unless hidden -/
+def mirrorOf (hide : Bool) (mir oldCap newCap : List Chunk) : List Chunk :=
+  if hide then mir else mir ++ newCap.drop oldCap.length
+
 def step (s : S) : Actor → S
   | .out =>
     let r := readerStep s.readSize s.out s.outPc s.capOut
-    { s with out := r.1, outPc := r.2.1, capOut := r.2.2 }
+    { s with out := r.1, outPc := r.2.1, capOut := r.2.2, mirOut := mirrorOf s.hideOut s.mirOut s.capOut r.2.2 }
   | .err =>
     if s.pty then s else
     let r := readerStep s.readSize s.err s.errPc s.capErr
-    { s with err := r.1, errPc := r.2.1, capErr := r.2.2 }
+    { s with err := r.1, errPc := r.2.1, capErr := r.2.2, mirErr := mirrorOf s.hideErr s.mirErr s.capErr r.2.2 }
   | .stdin => stdinStep s
   | .timer => timerStep s
   | .main => mainStep s
